@@ -52,6 +52,17 @@ func groupFilter(groups ...string) rules.FamilyFilter {
 	}
 }
 
+func fileFilterName(files ...string) func(file string) bool {
+	return func(file string) bool {
+		for _, f := range files {
+			if file == f {
+				return true
+			}
+		}
+		return false
+	}
+}
+
 func fileFilter(files ...string) func(fi *load.FuncInfo) bool {
 	return func(fi *load.FuncInfo) bool {
 		for _, f := range files {
@@ -147,6 +158,141 @@ func init() {
 			rules.I4(rc)
 			rules.I5(rc)
 			rules.I6(rc)
+		},
+	})
+	register(&Property{
+		ID:        "C08",
+		Technique: "static analysis: canonical-form comparison of reduction kernels against an anchor table and sibling specialisations; type-token coherence of reduction dispatchers and method tables; ownership analysis of the operand and the axis list; layout-guard rules on the reduction entry points",
+		Explain: "Decides: (K9) Sum/Prod/Argmax/Argmin(/Masked)/SliceMin/SliceMax/Reduce kernels equal the anchor table (accumulate with + from zero, * from one; update on strict comparison so the first index of the extreme wins; masked variants skip masked elements); (K1) all type specialisations of every reduction kernel incl. the axis-specialised reducers agree; (K3/K1arms) every arm of the reduction dispatchers and of the SumMethods/MinMethods/MaxMethods/Monotonic* tables uses its own label type and returns its own operation's triple; (O3) the caller's axis list is not mutated; (O8) the operand's access pattern is never aliased into a scratch AP that is recycled (operand unchanged); (L) layout rules of C16/C04 on the reduction entry points (see those properties). " +
+			"Not decided: the split/size/stride arithmetic of the first/last/default reducers and the axis renumbering loop.",
+		Run: func(rc *rules.RC) {
+			fams := rules.Families(rc.P)
+			f := groupFilter("reduce")
+			rules.K1(rc, fams, f, 210)
+			rules.K9(rc, fams, 120)
+			rules.K3(rc, fileFilter("eng_reduce.go", "eng_argmethods.go", "reduction_specialization.go"), 14, 250)
+			red := func(k string) bool {
+				for _, n := range []string{"Sum", "Max", "Min", "Argmax", "Argmin", "Reduce", "OptimizedReduce", "argmaxDenseTensor", "argminDenseTensor", "reduce", "prepReduce"} {
+					if strings.HasSuffix(k, "."+n) {
+						return true
+					}
+				}
+				return false
+			}
+			rules.O123f(rc, red)
+			rules.O8f(rc, red, 0)
+			rules.LGuards(rc, "C08")
+		},
+	})
+	register(&Property{
+		ID:        "C15",
+		Technique: "static analysis: mask-predicate table conformance of every typed arm, arm uniformity and type coherence, iterator mask polarity/duality, co-slicing of the mask, offset identity of mask access",
+		Explain: "Decides: (K8) in every typed arm of Masked{Equal,NotEqual,Greater,GreaterEqual,Less,LessEqual,Inside,Outside} the soft branch stores mask[i] = P(a) and the hard branch mask[i] = mask[i] || P(a) with P from the predicate table; (K1arms/K3) the arms agree and use their own label type; (I1,I2) masked iteration treats a set bit as invalid, in NextValidity/NextValid/NextInvalid of both masked iterator types; (S9) Slice/SliceInto slice the mask with the data window; (S2) MaskAt/SetMaskAt address the mask at the same offset as the data element (maskAt is at); (T-mask) both transpose builds move the mask before the data. " +
+			"Not decided: counts, run/edge finders, fill values, that valid positions get the unmasked value of elementwise operations.",
+		Quick: []string{"default", "inplacetranspose"},
+		Run: func(rc *rules.RC) {
+			rules.K8(rc, 100)
+			rules.K3(rc, fileFilter("dense_maskcmp_methods.go"), 8, 100)
+			rules.I12(rc)
+			rules.S9(rc)
+			rules.S2(rc)
+			rules.TMask(rc)
+		},
+	})
+	register(&Property{
+		ID:        "C04",
+		Technique: "static analysis: layout-guard goals on every whole-tensor writer/copy decided by path enumeration and boolean implication; truth-table check of the layout predicates; SSA storage-provenance and unique-owner analysis of the copying constructors; abstract interpretation of the in-place (unsafe) mode cases",
+		Explain: "Decides: (L0) RequiresIterator/IsMaterializable/IsView are the boolean functions every guard relies on; (L1) every path to a raw whole-buffer access in Memset, Zero, Copy, Materialize, ToMat64 has established that the tensor is not a view / does not require an iterator (iterator-driven variants are used otherwise); (M2/M3) in-place arithmetic through a view runs the iterator kernel paired with the view's own iterator, never a raw kernel on the iterator path; (V1) Clone, Materialize, SafeT allocate the result's storage, copy elements with a copy primitive and share no array/Header/Raw/mask with the source; (O8) and no access-pattern slices either; (S9) Slice/SliceInto build the view over the parent's window. " +
+			"Not decided: that the iterator writes land on the right elements (C05's arithmetic); native-slice conversions' element order.",
+		Run: func(rc *rules.RC) {
+			rules.L0(rc, nil)
+			rules.LGuards(rc, "C04")
+			rules.V1(rc)
+			rules.O8(rc)
+			rules.S9(rc)
+			rules.M2(rc, nil, 40, 900)
+		},
+	})
+	register(&Property{
+		ID:        "C09",
+		Technique: "static analysis: BLAS-gateway goals (every trans flag / leading dimension derives from a test of that operand's own state on every path) by path enumeration and implication; arm uniformity and precision-letter coherence of the typed BLAS arms; ownership analysis of scratch slices and recycled tensors",
+		Explain: "Decides: (LB) on every path to a BLAS call in MatMul/MatVecMul/Outer the lazy-transpose state and data order of each operand were branched on (a flag taken from the wrong operand, or a merged test, is reported); (L1) whether the operands' need for an iterator was consulted at all (it is not: known finding 15); (K1arms/K3) the float32/float64/complex64/complex128 arms call the same routine with the same argument pattern and the right precision letter; (O3/O7/O8) axes arguments are not mutated, only function-local tensors are recycled (handleIncr guard), scratch access patterns are not aliases of an operand's. " +
+			"Not decided: that trans flags, lda/ldb/ldc and operand swapping make BLAS compute sum_k a_ik b_kj (value semantics of an external routine); rounding.",
+		Run: func(rc *rules.RC) {
+			rules.LGuards(rc, "C09")
+			rules.K3(rc, fileFilter("defaultengine_linalg.go", "dense_linalg.go"), 3, 12)
+			lin := func(k string) bool {
+				for _, n := range []string{"Dot", "MatMul", "MatVecMul", "Outer", "Inner", "TensorMul", "Contract", "Trace", "handleIncr", "handleReuse"} {
+					if strings.HasSuffix(k, "."+n) {
+						return true
+					}
+				}
+				return false
+			}
+			oa := rules.O123f(rc, lin)
+			rules.O7(rc, oa)
+			rules.O8f(rc, lin, 0)
+		},
+	})
+	register(&Property{
+		ID:        "C10",
+		Technique: "static analysis: layout-accumulator implication check, layout-guard goals on the block-copy paths, width-family uniformity of the view-stack kernels, loop-cursor discipline, ownership of the repeats/axes arguments",
+		Explain: "Decides: (LA) the flag that selects StackDense's raw block-copy path is true only if no operand requires an iterator (initial value and every loop path, by implication); (L1) the block-copy calls are guarded by it, and whether denseRepeat consults the operand's layout (it does not: known finding 32); (K1w) doViewStack1/2/4/8 are one algorithm; (E2) in every loop of the stacking/repetition code a cursor advanced at the end of the body is advanced on every continue path; (O2/O3) repeats and shapes passed by the caller are neither kept nor modified. " +
+			"Not decided: block-copy offsets/strides of denseRepeat and denseSimpleStack, the slice-and-assign placement of denseConcat, data-order agreement of stacked operands (finding 19).",
+		Run: func(rc *rules.RC) {
+			rules.LA(rc)
+			rules.LGuards(rc, "C10")
+			rules.K1w(rc, func(stem string) bool { return strings.Contains(stem, "doViewStack") }, 4)
+			rules.E2(rc, fileFilterName("defaultengine_matop_misc.go", "defaultengine_matop_stack.go", "dense_matop_memmove.go", "array.go", "dense_assign.go"), 5)
+			rules.O123f(rc, func(k string) bool {
+				for _, n := range []string{"Concat", "Stack", "Hstack", "Vstack", "Repeat", "RepeatReuse", "StackDense"} {
+					if strings.HasSuffix(k, "."+n) {
+						return true
+					}
+				}
+				return false
+			})
+		},
+	})
+	register(&Property{
+		ID:        "C14",
+		Technique: "static analysis: static evaluation of the .npy dtype tables (writer o reader = id), wire-sequence agreement of the gob encoder/decoder, layout-guard goals on the writers, type-token coherence of the typed reader arms",
+		Explain: "Decides: (F1) for every dtype the .npy writer accepts, the reader maps its descriptor back to the same dtype (both tables and the reader's special cases evaluated statically for the int size of the configuration); (F2) GobEncode puts exactly the tensor's own Shape(), Strides(), order, triangle, mask, Data() on the wire and GobDecode reads the same sequence and installs every value; (F5) the rank-1 .npy header form is used only for rank-1 tensors; (L1/L4) whether WriteNpy, GobEncode and ToMat64 consult the layout before emitting raw storage (they do not: known findings 18, 28); (K3/K1arms) the typed arms of the readers (convFromStrs, ReadNpy) use their own label type and bit size. " +
+			"Not decided: value-level round trip (number formatting/parsing, header padding arithmetic, CSV record assembly), protobuf/flatbuffers field mapping.",
+		Run: func(rc *rules.RC) {
+			rules.F1(rc)
+			rules.F2(rc)
+			rules.LGuards(rc, "C14")
+			rules.K3(rc, fileFilter("dense_io.go"), 2, 25)
+		},
+	})
+	register(&Property{
+		ID:        "C16",
+		Technique: "static analysis: truth-table check of the data-order predicates and of the iterator decisions over all participants' orders; order-agreement goals on raw two-tensor accesses and exporters; BLAS-gateway order goals; stride-routine selection by order",
+		Explain: "Decides: (L0) IsColMajor/IsRowMajor/HasSameOrder are what they claim and prepDataVV/VS/SV/Unary iterate whenever two participants disagree on data order; (L3) raw two-tensor accesses (Copy, Float32/64Engine.Add) and row-major-only kernels (ReduceFirst/ReduceLast) are conditioned on the data order; (L4) exporters into row-major formats consult it; (LB) BLAS gateways derive leading dimensions from each operand's order; (T4) stride routines are selected by order in calcStrides and Transpose. Several of these fail on the pinned tree and are listed as known findings (17-19, 21, 40, 41). " +
+			"Not decided: that the BLAS flag mapping is right for column-major; contiguity flagging of column-major slices; StackDense order agreement.",
+		Run: func(rc *rules.RC) {
+			rules.L0(rc, nil)
+			rules.LGuards(rc, "C16")
+			rules.T4(rc)
+		},
+	})
+	register(&Property{
+		ID:        "C20",
+		Technique: "static analysis: every structural rule of the default configuration re-run under each build configuration; declaration parity of tag-selected files; layout-guard goals and width coherence of the specialised float engines; sibling comparison of per-build transpose code",
+		Explain: "Decides: (B1) each pair of tag-selected files (transpose copy vs in-place; asm vs pure-Go divmod) declares the same functions with the same signatures; (L1/L2/L3) the Float32/Float64 engines take their vecf fast paths only when no operand requires an iterator, never after the iterator kernel ran, and whether they consult data order (they do not: known finding 21); (K3) they use only accessors and kernels of their own width; (K1) F32/F64 engine methods are the same template; (T1,T2,T6,K1w,TMask) the in-place transpose build satisfies the same bookkeeping, sibling and mask rules as the copying build; thorough tier: all of this under default, noasm, inplacetranspose, both, and GOARCH=386. " +
+			"Not decided: the assembly divmod, numerical equality of results across engines, the cycle-following arithmetic of the in-place transpose.",
+		Quick: []string{"default", "inplacetranspose", "noasm"},
+		Run: func(rc *rules.RC) {
+			rules.B1(rc)
+			rules.LGuards(rc, "C20")
+			rules.K3(rc, fileFilter("defaultenginefloat32.go", "defaultenginefloat64.go"), 0, 0)
+			fams := rules.Families(rc.P)
+			rules.K1(rc, fams, func(f string) bool { return strings.HasPrefix(f, "tensor.(Float") || strings.HasPrefix(f, "tensor.prepData") || strings.HasPrefix(f, "tensor.handleFuncOpts") }, 2)
+			rules.T12(rc)
+			rules.T6(rc)
+			rules.K1w(rc, func(stem string) bool { return strings.Contains(stem, "denseTranspose") }, 4)
+			rules.TMask(rc)
 		},
 	})
 	register(&Property{
